@@ -11,6 +11,7 @@ import (
 	"mime"
 	"mime/multipart"
 	"net/http"
+	"net/textproto"
 	"net/url"
 	"reflect"
 	"regexp"
@@ -1702,6 +1703,21 @@ func MultipartBodyDecoder(body io.Reader, header http.Header, schema *openapi3.S
 			}
 			return nil, fmt.Errorf("part %s: %w", name, err)
 		}
+		if text, isText := value.(string); isText && valueSchema != nil && valueSchema.Value != nil && isPlainTextPart(part.Header) &&
+			(valueSchema.Value.Type.Is("integer") || valueSchema.Value.Type.Is("number") || valueSchema.Value.Type.Is("boolean")) {
+			// a primitive property travels as plain text (the default content type of such a part): it is read as
+			// the type its schema declares
+			parsed, err := parsePrimitive(text, valueSchema)
+			if err != nil {
+				if v, ok := err.(*ParseError); ok {
+					return nil, &ParseError{path: []any{name}, Cause: v}
+				}
+				return nil, fmt.Errorf("part %s: %w", name, err)
+			}
+			if parsed != nil {
+				value = parsed
+			}
+		}
 		values[name] = append(values[name], value)
 	}
 
@@ -1743,6 +1759,16 @@ func MultipartBodyDecoder(body io.Reader, header http.Header, schema *openapi3.S
 	}
 
 	return obj, nil
+}
+
+// isPlainTextPart tells whether a part of a multipart body carries plain text: it says so or says nothing.
+func isPlainTextPart(header textproto.MIMEHeader) bool {
+	contentType := header.Get("Content-Type")
+	if contentType == "" {
+		return true
+	}
+	mediaType, _, err := mime.ParseMediaType(contentType)
+	return err == nil && mediaType == "text/plain"
 }
 
 // FileBodyDecoder is a body decoder that decodes a file body to a string.
